@@ -131,6 +131,11 @@ class Run:
         o["dirs"] = sorted(int(x) for x in d["segs"])
         o["wal"] = {int(re.sub(r"\D", "", f)): n for f, n in d["wal"].items() if f.endswith(".log")}
         o["hashes"] = {seg: files for seg, files in d["segs"].items()}
+        ix = self.eng.cmd("!index 0").get("index")
+        # after an injected crash segments.idx can be ahead of the logged labels (crash inside save) or be
+        # rebuilt from the directories on load: it is compared with the model in crash-free histories only
+        if ix is not None and not self.crashed:
+            o["index"] = sorted((int(e.split(":")[0]), sorted(self.uidmap.get(u, 99) for u in e.split(":")[1].split(",") if u)) for e in ix)
         o["compacted"] = self.compacted
         o["acked"] = list(self.acked)
         o["maybe"] = list(self.maybe)
@@ -251,6 +256,13 @@ class Run:
                             _t.sleep(0.005)
                         if not ok:
                             self.notes.append(f"step point {op[1]} was not hit {op[2]} times")
+                    elif op[0] == "BGC":
+                        self.tokens.append("cs")
+                        self.compacted = True
+                        self.eng.cmd("!bgcompact 0")
+                    elif op[0] == "JOINC":
+                        self.eng.cmd("!joincompact"); self.eng.cmd("!sleep 40")
+                        self.drain_trace()
                     elif op[0] == "BGQ":
                         self.eng.cmd(f"!bg QUERY {tname(op[1])} RETURN [k]")
                     elif op[0] == "JOIN":
@@ -433,6 +445,14 @@ def compare_obs(impl_o, model_s, ntypes, nctx):
         diffs.append(f"the WAL thread's write/rotate order contradicts the model (entries_written vs cap): {m.get('walorder')}")
     if "0" in m.get("bok", "").split(","):
         diffs.append(f"a compaction batch is not one the modelled policy can produce: bok={m.get('bok')}")
+    if "index" in impl_o and "index" in m:
+        mi = []
+        for part in m["index"].split(","):
+            if ":" in part:
+                a, b = part.split(":")
+                mi.append((int(a), sorted(int(x) for x in b.split("+") if x != "")))
+        if sorted(mi) != [tuple(x) if not isinstance(x, tuple) else x for x in impl_o["index"]] and sorted(mi) != [(a, b) for a, b in impl_o["index"]]:
+            diffs.append(f"segments.idx: impl {impl_o['index']} model {sorted(mi)}")
     if impl_o["dirs"] != sorted(ints(m.get("dirs", ""))):
         diffs.append(f"dirs: impl {impl_o['dirs']} model {m.get('dirs')}")
     mw = {}
